@@ -674,9 +674,9 @@ impl<'tcx> Dumper<'tcx> {
             let is_const = matches!(kind, DefKind::Const { .. } | DefKind::AssocConst { .. });
             let has_mir = match kind {
                 DefKind::Fn | DefKind::AssocFn | DefKind::Closure => true,
-                // named constants of non-generic items: their initialiser is dumped so that ADT-typed constants
+                // named constants (also associated consts of generic impls: the MIR is polymorphic): their initialiser is dumped so that ADT-typed constants
                 // (e.g. a `Duration`) can be folded by the analyses instead of being read as raw bytes
-                DefKind::Const { .. } | DefKind::AssocConst { .. } => tcx.generics_of(did).count() == 0,
+                DefKind::Const { .. } | DefKind::AssocConst { .. } => true,
                 _ => false,
             };
             if !has_mir {
